@@ -278,7 +278,6 @@ Definition mon_step (m : mon) (e : tev) : mon :=
       let is_poll := 2 <=? call in
       let m := chk m (list_eqb3 (user_interest interest) (expected_interest m is_poll)) 201 in
       let m := chk m (negb (a_quit m)) 704 in
-      let m := chk m (something_registered m || (timeout =? 0)) 705 in   (* a zero-timeout poll for the internal task of a self-post is harmless *)
       m_wait m true (a_clk m) call maxev timeout gnd
   | TRet None _ clk =>
       let m := m_wait m false (w_entry m) (w_call m) (w_max m) (w_to m) (w_gnd m) in
@@ -295,6 +294,9 @@ Definition mon_step (m : mon) (e : tev) : mon :=
       let unreported := filter (fun p => negb (mem_z (100 + fst p) fds)) rw in
       let m := chk m (match unreported with [] => true | _ => negb is_poll && (w_max m <=? n) end) 203 in
       (* C06 / C07 / C09: nothing due may be pending when the loop sleeps *)
+      (* C07: the loop may block in the kernel only while something is registered (a non-sleeping poll for the
+         internal task of a self-post is harmless) *)
+      let m := chk m (negb slept || something_registered m) 705 in
       let m := chk m (negb (slept && any_obj (a_tk m))) 602 in
       let m := chk m (negb (slept && any_obj (fun j => a_ev m j && a_evp m j))) 708 in
       let m := chk m (negb (slept && any_obj (fun j => a_rw m j && a_rwp m j))) 902 in
@@ -328,6 +330,7 @@ Definition mon_step (m : mon) (e : tev) : mon :=
   | TDone o => chk m (o =? 0) 1802
   | TLimit => m
   | THang =>
+      let m := chk m (something_registered m) 705 in
       let m := chk m (negb (any_obj (a_tm m))) 405 in
       let m := chk m (negb (any_obj (a_tk m))) 604 in
       let m := chk m (negb (any_obj (fun j => a_ev m j && a_evp m j))) 710 in
